@@ -580,6 +580,38 @@ func c16PublicOnly(w *World, r *Report) {
 		}
 		r.Ob(ri, w.FnName(fn)+"|publishes-entry-jwks", fn.Pos(), ok, msg)
 	}
+	// the registry publishes every key of every holder: the holders' lists are appended as a whole, unconditionally
+	for _, t := range w.Implementors(kh) {
+		fn := w.Method(t, "Keys")
+		if fn == nil || fn.Blocks == nil {
+			continue
+		}
+		hk := findCalls(fn, func(c *ssa.CallCommon) bool { return c.IsInvoke() && c.Method.Name() == "Keys" })
+		if len(hk) == 0 {
+			continue
+		}
+		okAll := true
+		for _, c := range hk {
+			whole := false
+			if refs := c.Referrers(); refs != nil {
+				for _, rf := range *refs {
+					if ac, isC := rf.(*ssa.Call); isC {
+						if b, isB := ac.Call.Value.(*ssa.Builtin); isB && b.Name() == "append" && len(ac.Call.Args) == 2 && ac.Call.Args[1] == ssa.Value(c) {
+							whole = true
+							// unconditional within the loop: the append block is the block of the call
+							if ac.Block() != c.Block() {
+								whole = false
+							}
+						}
+					}
+				}
+			}
+			if !whole {
+				okAll = false
+			}
+		}
+		r.Ob(ri, w.FnName(fn)+"|aggregates-all-keys", fn.Pos(), okAll, "the registry must append every holder's complete key list (filtering or de-duplicating by key id can drop the key a token was signed with)")
+	}
 	// the management endpoint marshals exactly the registry's keys
 	found := false
 	for _, fn := range w.Funcs {
